@@ -191,7 +191,7 @@ def run(ctx):
     quick = ctx.tier == "quick"
     rng = ctx.rng
     cases = []
-    seeds = (0, 7) if quick else (0, 1, 7, 4242, 2**31 + 3)
+    seeds = (0, 7) if quick else (0, 1, 7, 4242, 90001)  # the model identifies streams by unary naturals: keep seeds small
     for seed in seeds:
         for N, moves, cap in ((6, ["sh", "sh", "sh"], None), (8, ["sh", "sh", "wf"], 2.5)) if quick else \
                 ((6, ["sh", "sh", "sh"], None), (12, ["sh", "sh", "wf"], 2.5), (12, ["sh", "sh", "wf", "wf"], 3.25), (20, ["sh", "sh"], None)):
